@@ -7,6 +7,7 @@ package vharness
 
 import (
 	"fmt"
+	"runtime"
 	"sort"
 	"strings"
 	"testing/synctest"
@@ -82,13 +83,25 @@ func drawGate(r *Rng, b gateBias) gateCfg {
 		switch {
 		case c.QK.Adapter() && k >= 86 && k < 95:
 			// park the dispatcher inside its next dequeue, complete some jobs meanwhile, then let it go
-			c.Ops = append(c.Ops, gateOp{Kind: "holddeq"}, gateOp{Kind: "release", Arg: r.Intn(8)}, gateOp{Kind: "release", Arg: r.Intn(8)}, gateOp{Kind: "add", Prio: Pick(r, prios...)}, gateOp{Kind: "unhold"})
+			c.Ops = append(c.Ops, gateOp{Kind: "holddeq"}, gateOp{Kind: "release", Arg: r.Intn(8)})
+			if b.Tune && r.Bool() {
+				// the limit changes while a dispatch burst is suspended
+				c.Ops = append(c.Ops, gateOp{Kind: "tune", Arg: Pick(r, 1, 1, 2, 3, 8)})
+			}
+			c.Ops = append(c.Ops, gateOp{Kind: "release", Arg: r.Intn(8)}, gateOp{Kind: "add", Prio: Pick(r, prios...)}, gateOp{Kind: "unhold"})
 		case k < 30:
 			c.Ops = append(c.Ops, gateOp{Kind: "add", Prio: Pick(r, prios...)})
 		case k < 55:
 			c.Ops = append(c.Ops, gateOp{Kind: "release", Arg: r.Intn(8)})
 		case k < 70 && b.Tune:
-			c.Ops = append(c.Ops, gateOp{Kind: "tune", Arg: Pick(r, 1, 2, 3, 4, 5, 8, 0)})
+			arg := Pick(r, 1, 2, 3, 4, 5, 8, 0)
+			c.Ops = append(c.Ops, gateOp{Kind: "tune", Arg: arg})
+			if arg == 0 && r.Bool() {
+				// n<1 means NumCPU: submit more than that many jobs
+				for i := 0; i < numCPU()+4; i++ {
+					c.Ops = append(c.Ops, gateOp{Kind: "add", Prio: Pick(r, prios...)})
+				}
+			}
 		case k < 78 && b.Life:
 			c.Ops = append(c.Ops, gateOp{Kind: "pause"})
 		case k < 86 && b.Life:
@@ -358,7 +371,7 @@ func epGate(c *RunCtx, cfg gateCfg) *Result {
 		for step, op := range cfg.Ops {
 			if hold != nil {
 				switch op.Kind {
-				case "release", "add", "sleep", "unhold", "holddeq":
+				case "release", "add", "sleep", "unhold", "holddeq", "tune":
 				default:
 					close(hold)
 					hold = nil
@@ -423,6 +436,7 @@ func epGate(c *RunCtx, cfg gateCfg) *Result {
 					}
 					if got := s.W.NumConcurrency(); got != eff {
 						e.Fail("C18", "num-concurrency", "", fmt.Sprintf("NumConcurrency=%d after TunePool(%d)", got, op.Arg))
+						e.Fail("C02", "limit-not-as-tuned", "", fmt.Sprintf("NumConcurrency=%d after TunePool(%d), expected %d (n<1 means NumCPU=%d; GOMAXPROCS=%d)", got, op.Arg, eff, numCPU(), runtime.GOMAXPROCS(0)))
 					}
 					e.ntFor("C18")
 				}
